@@ -96,3 +96,16 @@ def slices(ctx, rep):
                                 "implementation reads one group's values as the other's whenever both are non-empty (e.g. the condition and the body of a "
                                 "while loop both close over traced values)", line=b.lineno)
     rep.floor("primitive binds described by a slice chain", n, 4)
+
+
+def memos(ctx, rep):
+    from .. import memo
+
+    ix = ctx.index
+    rep.rule("R-C42-memo", "no interpreter / capture function memoises a transformed program under a key that contains the traced program only through "
+             "projections (its name, its input avals): two subroutines with equal signatures and different bodies (different static arguments) "
+             "would be replaced by one another")
+    n = memo.report(ix, rep, "R-C42-memo", ("pennylane/capture/", "pennylane/control_flow/", "pennylane/core/transforms/", "pennylane/tape/plxpr_conversion.py"),
+                    "traced programs")
+    if not n:
+        rep.proved("R-C42-memo", "capture / interpreter modules", "no partial-key memo (positive examples are kept as self-test variants)", nontrivial=False)
